@@ -21,6 +21,8 @@ var c05PACResults = []string{
 	"PROXY proxy-a.example:8080; DIRECT", "DIRECT; PROXY proxy-a.example:8080", "  PROXY proxy-a.example:8080  ;HTTPS proxy-b.example:8443",
 	"SOCKS socks-s.example:1080", "SOCKS4 socks-s.example:1080", "FOO proxy-a.example:8080", "proxy proxy-a.example:8080",
 	"PROXY proxy-a.example", "PROXY", "HTTPS proxy-b.example:8443; SOCKS5 socks-s.example:1080", "THROW", "PROXY 10.0.2.1:8080", "HTTP [bad:8080",
+	// lists whose first entry cannot be used: the request fails, the next entry is not a fallback
+	"SOCKS4 socks-s.example:1080; PROXY proxy-a.example:8080", "SOCKS socks-s.example:1080; DIRECT", "HTTP [bad:8080; HTTPS proxy-b.example:8443",
 }
 
 var c05ConnectTo = []string{
